@@ -4,7 +4,8 @@
 (*  [tid, nT, nO, nB,                                                      *)
 (*   rows: <<[o,t,b]>> (ids of the generating direction / radius / rotation*)
 (*         that each array row matches; -1 = no match; width = 7 columns), *)
-(*   norms6 / input6: observed radius per shell and nm input, fixed point, *)
+(*   norms6 / input7: observed radius per shell (1e-6 A) and nm input     *)
+(*   (1e-7 nm): equal numbers when the radius is ten times the input,      *)
 (*   helpers: <<[idx, q, p]>>  (index argument, quaternion-index result,   *)
 (*            position-index result; idx = <<-1>> stands for None),        *)
 (*   dec: [o, b, t6]  (ids / fixed-point radii of from_full_array_to_o_b_t)*)
@@ -28,9 +29,11 @@ HelperOK(r, h) ==
 Clause(r) ==
   LET n == r.nT * r.nO * r.nB IN
   IF r.err # "" THEN "exception:" \o r.err
+  ELSE IF r.helpersOnly THEN          \* a grid too large to match row by row: the index helpers on chosen indices only
+       (IF \E j \in 1 .. Len(r.helpers) : ~HelperOK(r, r.helpers[j]) THEN "index helper" ELSE "ok")
   ELSE IF Len(r.rows) # n \/ r.width # 7 THEN "array shape"
   ELSE IF \E i \in 0 .. (n - 1) : r.rows[i + 1] # F!RowOf(i, r.nO, r.nB) THEN "row order"
-  ELSE IF \E k \in 1 .. r.nT : Abs(r.norms6[k] - 10 * r.input6[k]) > 1 THEN "radii are not ten times the nm input"
+  ELSE IF \E k \in 1 .. r.nT : Abs(r.norms6[k] - r.input7[k]) > 1 THEN "radii are not ten times the nm input"          \* 1e-6 A = 1e-7 nm
   ELSE IF \E j \in 1 .. Len(r.helpers) : ~HelperOK(r, r.helpers[j]) THEN "index helper"
   ELSE IF r.dec.o # F!Arange(r.nO) THEN "decomposition: directions"
   ELSE IF r.dec.b # F!Arange(r.nB) THEN "decomposition: rotations"
